@@ -110,8 +110,8 @@ def campaign_xor(ctx):
     strat = st.tuples(st.one_of(st.integers(0, 255), st.binary(min_size=1, max_size=80),
                                 st.integers(1, 80).map(bytes)),
                       st.binary(max_size=200), st.sampled_from(["const", "this", "lambda"])).map(list)
-    ctx.search(strat, orc, ctx.budget(800, 30000))
-campaign_xor.shards = (1, 4)
+    ctx.search(strat, orc, ctx.budget(4800, 30000))
+campaign_xor.shards = (3, 4)
 
 
 # ---- rotation ----------------------------------------------------------------------------------
@@ -166,8 +166,8 @@ def campaign_rol(ctx):
             ctx.check_case([amount, group, pats[0][:group - 1], "const"], orc)
     ctx.exhaustive("rotate: all amounts -64..64 x groups 1..8 x 0..3 groups of pattern data + non-multiple lengths")
     strat = st.tuples(st.integers(-200, 200), st.integers(1, 12), st.binary(max_size=48), st.sampled_from(["const", "this"])).map(list)
-    ctx.search(strat, orc, ctx.budget(600, 30000))
-campaign_rol.shards = (2, 4)
+    ctx.search(strat, orc, ctx.budget(3600, 30000))
+campaign_rol.shards = (4, 4)
 
 
 # ---- swaps -------------------------------------------------------------------------------------
@@ -228,8 +228,8 @@ def campaign_swap(ctx):
         n = draw(st.integers(1, 16))
         data = draw(st.binary(min_size=n, max_size=n))
         return [kind, n, data, draw(st.binary(max_size=3))]
-    ctx.search(cases(), orc, ctx.budget(800, 30000))
-campaign_swap.shards = (1, 2)
+    ctx.search(cases(), orc, ctx.budget(4800, 30000))
+campaign_swap.shards = (3, 4)
 
 
 # ---- compression -------------------------------------------------------------------------------
@@ -276,8 +276,8 @@ def campaign_compressed(ctx):
                       st.binary(min_size=200, max_size=3000))
     strat = st.tuples(st.sampled_from(sorted(LIBS)), st.sampled_from([None, 1, 6, 9]), datas,
                       st.sampled_from(["varint", "int32"])).map(list)
-    ctx.search(strat, comp_oracle(ctx), ctx.budget(250, 8000))
-campaign_compressed.shards = (1, 4)
+    ctx.search(strat, comp_oracle(ctx), ctx.budget(1500, 8000))
+campaign_compressed.shards = (4, 4)
 
 
 CAMPAIGNS = {"xor": campaign_xor, "rol": campaign_rol, "swap": campaign_swap, "compressed": campaign_compressed}
